@@ -189,8 +189,8 @@ KnownLeadingZeroInput(k, i) == k.priv /\ i.hard /\ k.key[1] = 0
 \* which serialised field differs first (for the report)
 SerDiff(or, want, gotStr) ==
     LET d == B58Dec(or, gotStr)
-    IN IF ~d.ok \/ Len(d.b) # 82 THEN "serialisation-length-or-alphabet"
-       ELSE LET g == d.b
+    IN IF ~d.ok \/ Len(d.out) # 82 THEN "serialisation-length-or-alphabet"
+       ELSE LET g == d.out
                 w == WithCheck(or, want)
                 F(a, b) == SubSeq(g, a, b) # SubSeq(w, a, b)
             IN IF F(1, 4) THEN "version"
@@ -288,8 +288,9 @@ VerdictChildPub(l, par) ==
 
 VerdictChild(l, known) ==
     LET d == B58Dec(l.or, l.parent)
-        par == Unser(SubSeq(d.b, 1, 78))
-    IN IF ~d.ok \/ Len(d.b) # 82 THEN Res("specfail", "parent-string", l.parent)
+        par == Unser(SubSeq(d.out, 1, 78))
+    IN IF ~d.ok \/ Len(d.out) # 82       \* the parent is identified by what its own String() returned
+       THEN Res("violation", "parent-serialisation", "serialisation-length-or-alphabet")
        ELSE IF par.priv THEN VerdictChildPriv(l, par, known) ELSE VerdictChildPub(l, par)
 
 \* --- importing a serialised key.  Classes:
@@ -303,39 +304,54 @@ VerdictChild(l, known) ==
 ParseClass(or, net, s) ==
     LET d == B58Dec(or, s)
     IN IF ~d.ok THEN [c |-> "reject", rule |-> "not-base58"]
-       ELSE IF Len(d.b) # 82 THEN [c |-> "reject", rule |-> "length"]
-       ELSE LET pay == SubSeq(d.b, 1, 78)
+       ELSE IF Len(d.out) # 82 THEN [c |-> "reject", rule |-> "length"]
+       ELSE LET pay == SubSeq(d.out, 1, 78)
                 k == Unser(pay)
                 shape == IF k.ver \notin {net.prv, net.pub} THEN [c |-> "dontcare", rule |-> "unknown-version"]
                          ELSE IF k.priv # (k.ver = net.prv) THEN [c |-> "dontcare", rule |-> "version-kind-mismatch"]
                          ELSE IF k.depth = 0 /\ (k.fp # Zeros(4) \/ k.num # [hard |-> FALSE, n |-> 0])
                               THEN [c |-> "dontcare", rule |-> "master-with-parent-data"]
                          ELSE [c |-> "accept", rule |-> "well-formed"]
-            IN IF SubSeq(Sha256d(or, pay), 1, 4) # SubSeq(d.b, 79, 82) THEN [c |-> "reject", rule |-> "checksum"]
+            IN IF SubSeq(Sha256d(or, pay), 1, 4) # SubSeq(d.out, 79, 82) THEN [c |-> "reject", rule |-> "checksum"]
                ELSE IF pay[46] = 0
                     THEN (IF IsZero(k.key) \/ Geq(k.key, NOrder) THEN [c |-> "reject", rule |-> "private-key-range"] ELSE shape)
                ELSE IF pay[46] \in {2, 3}
                     THEN (LET x == SubSeq(pay, 47, 78)
-                          IN IF Geq(x, PField) \/ ~Liftable(or, x) THEN [c |-> "reject", rule |-> "public-key-not-on-curve"] ELSE shape)
+                          IN IF Geq(x, PField) THEN [c |-> "reject", rule |-> "public-key-x-out-of-range"]
+                             ELSE IF ~Liftable(or, x) THEN [c |-> "reject", rule |-> "public-key-not-on-curve"]
+                             ELSE shape)
                ELSE [c |-> "reject", rule |-> "key-prefix"]
 
-VerdictParse(l) ==
+\* the deviation recorded as known finding K-C14-2: a compressed public key whose x is not a reduced
+\* field element (p <= x < 2^256) is imported when x - p is the abscissa of a curve point
+\* (btcec's ParsePubKey reduces x silently for compressed keys)
+KnownXRange == "K-C14-2"
+KnownXRangeInput(or, s) ==
+    LET pay == SubSeq(B58Dec(or, s).out, 1, 78)
+        x == SubSeq(pay, 47, 78)
+    IN Liftable(or, SubFrom(x, PField, 1)[2])
+
+VerdictParse(l, known) ==
     LET or == l.or  net == l.net  im == l.impl
         pc == ParseClass(or, net, l.s)
     IN IF l.expectclass # "" /\ l.expectclass # pc.c THEN Res("specfail", "generator-class", pc.c \o ":" \o pc.rule)
+       ELSE IF pc.c = "reject" /\ im.ok /\ pc.rule = "public-key-x-out-of-range" /\ KnownXRangeInput(or, l.s)
+            THEN (IF KnownXRange \in known THEN Res("known", KnownXRange, "accepted:" \o pc.rule)
+                  ELSE Res("violation", "parse-reject:" \o pc.rule, "accepted:x>=p-reduced-mod-p"))
        ELSE IF pc.c = "reject" THEN Rejects(im, "parse-reject:" \o pc.rule, pc.rule)
        ELSE IF pc.c = "dontcare" THEN Res("dontcare", "parse:" \o pc.rule, IF im.ok THEN "accepted" ELSE "rejected")
-       ELSE Accepts(or, net, Valid(Unser(SubSeq(B58Dec(or, l.s).b, 1, 78))), im, "parse-accept")
+       ELSE Accepts(or, net, Valid(Unser(SubSeq(B58Dec(or, l.s).out, 1, 78))), im, "parse-accept")
 
 VerdictConst(l) ==
     IF l.n = NOrder /\ l.p = PField THEN Res("ok", "const", "") ELSE Res("specfail", "curve-constants", "")
 
 Verdict(l, known) ==
     IF l.op = "const" THEN VerdictConst(l)
+    ELSE IF l.impl.panic THEN Res("violation", "panic", l.impl.err)      \* a crash is never a rejection
     ELSE IF ~OracleFunctional(l.or) THEN Res("specfail", "oracle-not-functional", "")
     ELSE IF l.op = "master" THEN VerdictMaster(l)
     ELSE IF l.op = "child" THEN VerdictChild(l, known)
-    ELSE IF l.op = "parse" THEN VerdictParse(l)
+    ELSE IF l.op = "parse" THEN VerdictParse(l, known)
     ELSE Res("specfail", "unknown-op", l.op)
 
 ---------------------------------------------------------------------------
